@@ -9,7 +9,7 @@ import sqlite3
 import tempfile
 import time
 
-from .core import DEFAULT_SETTINGS, ENOVAL, Cache, Disk, Timeout
+from .core import DBNAME, DEFAULT_SETTINGS, ENOVAL, Cache, Disk, Timeout
 from .persistent import Deque, Index
 
 
@@ -35,21 +35,24 @@ class FanoutCache:
         directory = op.expandvars(directory)
 
         default_size_limit = DEFAULT_SETTINGS['size_limit']
+        given = 'size_limit' in settings
         size_limit = settings.pop('size_limit', default_size_limit) / shards
+
+        def shard(num):
+            path = op.join(directory, '%03d' % num)
+            limit = {}
+            if given or not op.exists(op.join(path, DBNAME)):
+                # The default limit is for new shards only: a shard that
+                # exists keeps the limit stored in it.
+                limit['size_limit'] = size_limit
+            return Cache(
+                directory=path, timeout=timeout, disk=disk, **limit, **settings
+            )
 
         self._count = shards
         self._directory = directory
         self._disk = disk
-        self._shards = tuple(
-            Cache(
-                directory=op.join(directory, '%03d' % num),
-                timeout=timeout,
-                disk=disk,
-                size_limit=size_limit,
-                **settings,
-            )
-            for num in range(shards)
-        )
+        self._shards = tuple(shard(num) for num in range(shards))
         self._hash = self._shards[0].disk.hash
         self._caches = {}
         self._deques = {}
